@@ -907,7 +907,7 @@ pub fn twospare_decode<F: RField>(c: &Weierstrass<F>, bytes: &[u8], compressed: 
 }
 
 /// Edwards compressed encoding (Jubjub, RFC 8032): y little-endian in 255 bits, bit 255 = x odd.
-pub fn edwards_encode(c: &TwistedEdwards<PrimeF>, p: &Pt<Big>) -> Vec<u8> {
+pub fn edwards_encode(_c: &TwistedEdwards<PrimeF>, p: &Pt<Big>) -> Vec<u8> {
     let (x, y) = p.xy().expect("Edwards points are affine");
     let mut out = le_bytes(y, 32);
     if x.bit(0) {
